@@ -26,7 +26,7 @@
 (* a parent method delegating to a registered method of a child), the      *)
 (* children its constructor attaches (with the kinds the constructor       *)
 (* disables in them), the children recreate_network() replaces, and        *)
-(* whether it is a pure container (ModuleDict).  An EvolvableWrapper and   *)
+(* whether it is a pure container (ModuleDict) or a wrapper.  An EvolvableWrapper and *)
 (* the module it wraps form ONE node whose own methods are the wrapped     *)
 (* module's ("maintaining its mutation methods at the top-level").         *)
 (*                                                                         *)
@@ -171,9 +171,15 @@ MaxHopsOf(T, p, m) == Len(FbSeq(T, p \o Front(m), Last(m), 3)) - 1
 
 (* outermost call of the registered name m on the node at p, the bodies     *)
 (* deciding to fall back h times                                            *)
-CallResult(T, p, m, h) ==
+(* lenient: a fall-back INSIDE a wrapped module is taken even when the wrapper does not offer the target (the wrapped module   *)
+(* runs its methods whenever it is reached through the wrapper); whether such a fall-back applies is left open (Ambiguous)    *)
+HopRegistered(T, e) == Fb(T[e.q].cls, e.x) \in RegAll(T, e.q)
+Ambiguous(T, p, m, h) ==
+  LET S == FbSeq(T, p \o Front(m), Last(m), 3) IN
+  \E i \in 1..h : ~HopRegistered(T, S[i]) /\ Cls(T[S[i].q].cls).wrapper
+CallResult(T, p, m, h, lenient) ==
   LET S      == FbSeq(T, p \o Front(m), Last(m), 3)
-      hopOK(i) == Fb(T[S[i].q].cls, S[i].x) \in RegAll(T, S[i].q)
+      hopOK(i) == HopRegistered(T, S[i]) \/ (lenient /\ Cls(T[S[i].q].cls).wrapper)
       brk    == {i \in 1..h : ~hopOK(i)}
       thru(e) == {r \in DOMAIN T : IsPrefix(p, r) /\ IsPrefix(r, e) /\ ~Container(T, r)}
   IN  IF brk = {}
@@ -225,7 +231,8 @@ Call(t, p, m, h) ==
   /\ Callable(t, p)
   /\ m \in RegAll(trees[t], p)
   /\ h \in 0..MaxHopsOf(trees[t], p, m)
-  /\ LET r == CallResult(trees[t], p, m, h) IN
+  /\ ~Ambiguous(trees[t], p, m, h)
+  /\ LET r == CallResult(trees[t], p, m, h, FALSE) IN
        /\ trees' = [trees EXCEPT ![t] = r.tree]
        /\ out' = [recr |-> {<<t, q>> : q \in r.recr}, hooks |-> {<<t, q>> : q \in r.hooks},
                   ret |-> r.ret, raised |-> ""]
